@@ -39,6 +39,7 @@ func (m monC06) Key() string {
 type sigHooks struct {
 	onState      func(ex *explorer, s *exState)
 	onTransition func(ex *explorer, s *exState, ev *exEvent, res *exResult, mon monC06) (monC06, bool)
+	setup        func(ex *explorer)
 }
 
 func batchName(k int) string { return fmt.Sprintf("batch-%d", k) }
@@ -153,6 +154,9 @@ func exploreSigning(c *Ctx, n, t, batches int, hooks sigHooks, maxStates int) (s
 		return
 	}
 	ex := &explorer{W: ce.W, Node: ce.W.Nodes[0], Round: ce.Round}
+	if hooks.setup != nil {
+		hooks.setup(ex)
+	}
 	root := ex.capture(nil, nil, monC06{})
 	seen := map[string]bool{oracle.Hash(root.Proj) + root.Mon.Key(): true}
 	queue := []*exState{root}
@@ -324,15 +328,25 @@ func judgeSigningTransition(c *Ctx, n, t int, ex *explorer, s *exState, ev *exEv
 }
 
 func checkC06(c *Ctx) {
-	c.Rule = "worlds with a real finished key generation per (n,t); breadth-first exploration of the real ProcessMessage on node 0 over {proposal of batch k, partial signature by p for batch k (real signatures from the airgapped machines; current, earlier and not-yet-proposed batches; repeated; uninvited id), a well-formed but wrong partial signature, error report by p} to a fixpoint of (public projection, monitor state), 3 batches, n<=4; a per-batch contribution counter decides: reconstruction iff exactly t distinct accepted contributions carrying the current batch id, cancellation iff n-t+1 failures, rejected => nothing persisted, next proposal accepted (board message and ProposeSignMessages API). Thorough adds seeded random walks for n=5..7. distinct = distinct (abstract state, monitor state) pairs"
+	c.Rule = "worlds with a real finished key generation per (n,t); breadth-first exploration of the real ProcessMessage on node 0 over {proposal of batch k, partial signature by p for batch k (real signatures from the airgapped machines; current, earlier and not-yet-proposed batches; repeated; uninvited id), a well-formed but wrong partial signature, error report by p} to a fixpoint of (public projection, monitor state), 3 batches, n<=4; a per-batch contribution counter decides: reconstruction iff exactly t distinct accepted contributions carrying the current batch id, cancellation iff n-t+1 failures, rejected => nothing persisted, next proposal accepted (board message and ProposeSignMessages API). One further exploration runs on a node with the daemon's --skip_comm_keys_verification on. Thorough adds seeded random walks for n=5..7. distinct = distinct (abstract state, monitor state) pairs"
 	c.Assumptions = []string{"MemState substituted for LevelDB", "node 0's point of view", "re-posting an identical proposal is not explored here (C10)"}
 	c.Exhaustive = true
-	type cfg struct{ n, t int }
+	type cfg struct {
+		n, t       int
+		unverified bool
+	}
 	var cfgs []cfg
 	for n := 2; n <= c.Pick(3, 4); n++ {
 		for t := 2; t <= n; t++ {
-			cfgs = append(cfgs, cfg{n, t})
+			cfgs = append(cfgs, cfg{n, t, false})
 		}
+	}
+	// the same exploration on a node started with --skip_comm_keys_verification (a documented daemon flag):
+	// nothing in front of the round's state machine binds a message to its sender, the round's own rules
+	// (membership of the claimed participant included) decide alone
+	cfgs = append(cfgs, cfg{3, 2, true})
+	if c.Thorough() {
+		cfgs = append(cfgs, cfg{2, 2, true}, cfg{4, 3, true})
 	}
 	Parallel(len(cfgs), 8, func(i int) {
 		n, t := cfgs[i].n, cfgs[i].t
@@ -341,6 +355,14 @@ func checkC06(c *Ctx) {
 			round = ex.Round
 			return judgeSigningTransition(c, n, t, ex, s, ev, res, mon, ex.Round)
 		}}
+		if cfgs[i].unverified {
+			hooks.setup = func(ex *explorer) {
+				if sk, ok := ex.Node.Svc.(interface{ SetSkipCommKeysVerification(bool) }); ok {
+					sk.SetSkipCommKeysVerification(true)
+					c.Add("explorations_without_sender_verification", 1)
+				}
+			}
+		}
 		st, tr, complete := exploreSigning(c, n, t, c.Pick(2, 3), hooks, c.Pick(6000, 300000))
 		_ = round
 		c.Add("states", st)
@@ -352,7 +374,7 @@ func checkC06(c *Ctx) {
 		c.Sample(map[string]interface{}{"n": n, "t": t, "states": st, "transitions": tr})
 	})
 	if c.Thorough() {
-		walks := []cfg{{5, 2}, {5, 3}, {5, 5}, {6, 4}, {7, 2}, {7, 4}, {7, 7}}
+		walks := []cfg{{5, 2, false}, {5, 3, false}, {5, 5, false}, {6, 4, false}, {7, 2, false}, {7, 4, false}, {7, 7, false}}
 		Parallel(len(walks), 8, func(i int) {
 			randomSigningWalks(c, walks[i].n, walks[i].t, 300, 40)
 		})
